@@ -29,6 +29,8 @@ ONE = G.ONE
 def gen_fee_case(rng):
     line = H.gen_case(rng, max_ops=18)
     t = line.split()
+    if rng.random() < 0.25:
+        t[3] = t[4] = "0"          # global fee state with both program fee parameters zero (buckets may still hold fees)
     c = H.parse_case(line)
     # give every bank random starting fee buckets (solvency is not asserted here)
     i = 6
@@ -46,13 +48,19 @@ def add_collects(rng, line):
     c = H.parse_case(line)
     t = line.split()
     extra = []
+    nx = 0
     for _ in range(rng.randrange(1, 4)):
-        extra += [16, rng.randrange(c["nb"])]
+        if rng.random() < 0.3:
+            # a fee ATA that belongs to somebody else: must be refused whatever the fee parameters are
+            extra += [32, rng.randrange(c["nb"]), rng.randrange(c["na"])]
+        else:
+            extra += [16, rng.randrange(c["nb"])]
+        nx += 1
     # ops count token position: recompute
     i = 6
     for b in c["banks"]:
         i += G.BANK_TOKS + H.HB_EXTRA + 4 * len(b["emode"])
-    t[i] = str(int(t[i]) + len(extra) // 2)
+    t[i] = str(int(t[i]) + nx)
     return " ".join(t + list(map(str, extra)))
 
 
